@@ -302,6 +302,28 @@ theorem group_complete_partial (inp : SelInput) (d : Nat) (dl reqs : List Nat)
   rw [step5_single_none_iff, step4_nil_iff]
   exact h
 
+/-- candidates of three requests A=0, B=1, C=2 (two each) and the pairs that pass the disjointness test -/
+def okPairs : List (Cand × Cand) :=
+  [((0, 0), (1, 0)), ((0, 1), (1, 1)), ((1, 0), (2, 0)), ((1, 1), (2, 1)), ((0, 0), (2, 1)), ((0, 1), (2, 1)),
+   ((0, 1), (2, 0))]
+
+def demoInc : SelInput where
+  ncand := fun _ => 2
+  dis := fun c c' => okPairs.contains (c, c') || okPairs.contains (c', c)
+  okInc := fun _ => true
+  hasStrict := fun _ => false
+  hasInc := fun _ => false
+  vid := fun c => 2 * c.1 + c.2
+
+/-- **why completeness is only claimed for one pair** (`…_fails_current` for the general statement): with the
+overlapping vectors {A,B}, {B,C}, {A,C} the selection ends in a DisjunctionError although the assignment
+A↦1, B↦1, C↦1 is pairwise disjoint — step 5 commits to the first combination (A↦0, B↦0), then C↦0, and {A,C} has no
+combination left.  (Stated as ONE vector {A,B,C} the same instance is solved.) -/
+theorem overlapping_complete_fails_current :
+    selectDisjoint demoInc [(0, [0, 1]), (1, [1, 2]), (2, [0, 2])] [0, 1, 2] = none ∧
+    (demoInc.dis (1, 1) (0, 1) = true ∧ demoInc.dis (2, 1) (1, 1) = true ∧ demoInc.dis (2, 1) (0, 1) = true) ∧
+    selectDisjoint demoInc [(0, [0, 1, 2])] [0, 1, 2] = some [(0, 1), (1, 1), (2, 1)] := by decide
+
 /-! ### non-vacuity: two ROADM triangles' worth of OMS -/
 
 def oAB : Oms := ⟨0, 10, 1⟩
